@@ -209,6 +209,13 @@ class GrainGrowthModel(GenericModel):
         cG[dissolveIndices] = upper[dissolveIndices]
         return cG
     
+    def setup(self):
+        '''
+        Adds empty size classes if the distribution reaches the end of the grid
+        Otherwise grains in the last size class grow out of the grid during the first step
+        '''
+        self.pbm.adjustSizeClassesEuler()
+
     def getCurrentX(self):
         '''
         Returns current time and grain size distribution
